@@ -478,7 +478,7 @@ def nice_model(hyps, goal, arrays, timeout_ms=None):
     if not cons:
         return None
     s = z3.Solver()
-    s.set("timeout", min(timeout_ms or engine.Z3_TIMEOUT_MS, 10000))
+    engine._budget(s, min(timeout_ms or engine.Z3_TIMEOUT_MS, 10000))
     s.add(*hyps)
     s.add(z3.Not(goal))
     s.add(*cons)
